@@ -634,7 +634,8 @@ func execValidate(s *vStore, fork, consistent bool, raw []byte) Result {
 
 	// independent sums (math/big)
 	inSum, outSum := new(big.Int), new(big.Int)
-	resolved, sameAsset, outsPositive := true, true, true
+	resolved, sameAsset, outsPositive, distinct := true, true, true, true
+	spent := map[string]bool{}
 	for _, inp := range tx.Inputs {
 		switch {
 		case inp.Mint != nil:
@@ -650,6 +651,10 @@ func execValidate(s *vStore, fork, consistent bool, raw []byte) Result {
 			if u.Asset != tx.Asset {
 				sameAsset = false
 			}
+			if spent[vRef(inp.Hash, inp.Index)] {
+				distinct = false // one stored output counted twice creates value
+			}
+			spent[vRef(inp.Hash, inp.Index)] = true
 			inSum.Add(inSum, integerToBig(u.Amount))
 		}
 	}
@@ -666,9 +671,9 @@ func execValidate(s *vStore, fork, consistent bool, raw []byte) Result {
 		res.Out = fmt.Sprintf("accept %s %s", inSum, outSum)
 		res.Nontrivial = true
 		res.Tags = append(res.Tags, fmt.Sprintf("accept:type-%02x", tt))
-		if !resolved || !sameAsset || !outsPositive || inSum.Sign() <= 0 || inSum.Cmp(outSum) != 0 {
+		if !resolved || !sameAsset || !outsPositive || !distinct || inSum.Sign() <= 0 || inSum.Cmp(outSum) != 0 {
 			res.PropKey = "C01:conservation"
-			res.PropDesc = fmt.Sprintf("accepted with inputs=%s outputs=%s resolved=%v sameAsset=%v outputsPositive=%v", inSum, outSum, resolved, sameAsset, outsPositive)
+			res.PropDesc = fmt.Sprintf("accepted with inputs=%s outputs=%s resolved=%v sameAsset=%v outputsPositive=%v distinctInputs=%v", inSum, outSum, resolved, sameAsset, outsPositive, distinct)
 		} else if why := checkAuthorization(s, ver, hash, tt); why != "" {
 			res.PropKey, res.PropDesc = "C02:unauthorized", why
 		} else if why := tamperStream(s, ver, raw, fork, tt); why != "" {
